@@ -296,10 +296,16 @@ class PossibleMatch:
                 else:
                     reaction_prob = bd.weight
                     element_weight = 0
+                    compatible_weights = []
                     for bond_descriptors_weight in token.bond_descriptors:
                         if bond_descriptors_weight.is_compatible(open_bond):
                             element_weight += bond_descriptors_weight.weight
-                    reaction_prob /= element_weight
+                            compatible_weights.append(bond_descriptors_weight.weight)
+                    if element_weight > 0:
+                        reaction_prob /= element_weight
+                    elif all(weight == 0 for weight in compatible_weights):
+                        # The generator picks uniformly among options that all have weight zero.
+                        reaction_prob = 1.0 / len(compatible_weights)
                 return reaction_prob
 
             params = Chem.SmilesParserParams()
